@@ -8,6 +8,10 @@ ENV = "GOFLAGS=-mod=mod GOPROXY=off GOSUMDB=off GOTOOLCHAIN=local"
 
 # id -> (technique, level text, level note, design ref)
 CLAIMS = {
+ "C11": ("JSON-visibility closure over go/types struct graphs, per-item loop shape rules (forward-once, write/count pairing), path-component and file-name agreement, loop index-coverage evaluation, must-precede dataflow over go/cfg",
+         "Decides persistence structure for ALL traversals and job sequences, not row equality: (J1) every field of the stored row types (gdbi.BaseTraveler and all repository types reachable from it) and of the job record is exported, not excluded from JSON and of a type encoding/json can read back; (J2) Spool's writer loop writes each row once and advances Status.Count by one, unconditionally; (J3) Spool, Stream and Delete build job paths from the base directory and sanitize.Name(<graph argument>), the files Stream and the constructor read are files Spool writes, Delete removes registry entry and directory; (J4) JobMatch's comparison loop visits every position of the job's step list and Search reports a job only under the graph test and JobMatch; (J5) the job record is written and read as one type and serialised only once COMPLETE; (J6) the serializer pools and the resume feed forward every received row exactly once, unconditionally. Does not decide multiset equality with a direct run, JSON fidelity of values, or hash collisions of statements.",
+         "Trusted: go/types, go/cfg; encoding/json semantics (exported fields, tags).",
+         "DESIGN.md §4 C11"),
  "C08": ("dispatch totality, must-dataflow of checked casts over go/cfg, ordering-domain truth tables of the returned comparisons, abstract execution of the Boolean combinator arms over all truth assignments (go/types AST)",
          "Decides structural necessary conditions for ALL element values and condition arguments, for the core evaluator: (B1) every gripql.Condition and every HasExpression kind has an arm; (B2) in every ordering arm each numeric operand of the returned comparison comes from a cast.ToFloat64E whose error was tested on that path and no error-swallowing cast is used (non-numbers never match, never raise); (B3) for gt, gte, lt, lte, inside, outside, between the returned comparison equals the documented predicate on every ordering of (value, bound[s]), with operand roles taken from the cast arguments; (B4) the And/Or/Not arms return all/any/negation on every truth assignment of up to three sub-expressions (abstract execution of the arm's source), which gives De Morgan, double negation and reordering. Does not decide reflect.DeepEqual semantics behind eq/neq/within/without/contains, what cast accepts as a number, or missing-field handling.",
          "Trusted: go/types, go/cfg; documented predicates transcribed from gripql/has_operators.go and the query documentation (table c08documented).",
